@@ -152,6 +152,10 @@ def rule_stages(model):
 
     def mentions(node, text):
         return text in norm(node) if node is not None else False
+    fmt_aliases = {n.targets[0].id for n in own_nodes(fi.node)
+                   if isinstance(n, ast.Assign) and
+                   isinstance(n.targets[0], ast.Name) and
+                   norm(n.value) == 'self.fmt'}
     for i, st in enumerate(body):
         for n in ast.walk(st):
             if isinstance(n, ast.Return) and n.value is not None and \
@@ -164,7 +168,11 @@ def rule_stages(model):
         if isinstance(st, ast.If) and mentions(st.test, "'fmt' in"):
             idx.setdefault('fmt', i)
         if any(isinstance(n, ast.BinOp) and isinstance(n.op, ast.Mod) and
-               mentions(n.left, 'self.fmt') for n in ast.walk(st)):
+               (mentions(n.left, 'self.fmt') or (any(
+                   isinstance(x, ast.Name) and x.id in fmt_aliases
+                   for x in ast.walk(n.left)) and any(
+                   isinstance(x, ast.Constant) and x.value == '%'
+                   for x in ast.walk(n.left)))) for n in ast.walk(st)):
             idx.setdefault('cformat', i)
         if isinstance(st, ast.For) and mentions(st.iter, 'modifiers'):
             idx.setdefault('modifiers', i)
@@ -319,9 +327,11 @@ def rule_agreements(model):
                   ctx=tc)
     # fmt twin blocks in Var.render
     ren = model.func('DT_Var', 'Var.render')
-    chains = [n for n in own_nodes(ren.node) if isinstance(n, ast.If)
-              and norm(n.test).startswith('hasattr(')
-              and 'special_formats' in ast.unparse(n)]
+    chains = []
+    for f in m.funcs.values():
+        chains += [n for n in own_nodes(f.node) if isinstance(n, ast.If)
+                   and norm(n.test).startswith('hasattr(')
+                   and 'special_formats' in ast.unparse(n)]
     r.instance(ren.where, f'{len(chains)} fmt dispatch block(s)')
     if len(chains) == 2:
         if ast.dump(chains[0]) != ast.dump(chains[1]):
